@@ -159,7 +159,7 @@ func (g *Generator) generateMethodArgumentForMakingRequest(obj *tlparser.Method)
 			continue // ну а зачем?
 		}
 
-		dict[jen.Id(goify(p.Name, true))] = jen.Id(argumentName(p.Name))
+		dict[jen.Id(fieldName(p.Name, nil))] = jen.Id(argumentName(p.Name))
 	}
 
 	return jen.Op("&").Id(goify(obj.Name, true) + "Params").Values(dict)
